@@ -39,6 +39,55 @@ def check_parse(rep, prog):
     fcall = [e for e in I.events if e.kind == "opaquecall" and e.data[0] == HL + "get_hlog_fields"]
     rep.check(len(fcall) == 1 and fcall[0].data[1] == (hdr,), rule, "fields come from get_hlog_fields(header file)", where, "get_hlog_fields(header_file_path)",
               "field table is not read from the given header file")
+    # which fields are listed with which bytes: the summary is run on sample field tables x sample logs (fields that fit,
+    # the first one that does not, zero and non-zero values, widths 1 and 2 and wider) and compared with the documented listing
+    import collections
+    from ..terms import evaluate, CannotEval
+    HF = collections.namedtuple("HistoryLogField", ["name", "size"])
+    tables = [[], [HF("a", 1)], [HF("first", 2), HF("second field", 1), HF("third-3", 2), HF("x.y", 1)],
+              [HF("w1", 1), HF("w2", 2), HF("w4", 4), HF("w1b", 1), HF("w2b", 2)], [HF("n%d" % i, 1 + i % 2) for i in range(12)]]
+    logs = [b"", b"\x00", b"\x07", b"\x00\x00\x00", b"\x01\x02\x03", b"\x00\x10\x00\x00\x05\x09", b"\xff" * 5, bytes(range(1, 9)),
+            b"\x00\x00\x01\x00\x00\x00\x00\x02\x00\x00", bytes((i * 7) % 5 for i in range(20))]
+    bad = None
+    n = 0
+    for tbl in tables:
+        for data in logs:
+            env = pelx.with_heap(I, {DATA: data, Op("len", DATA): len(data), Op("truthy", DATA): bool(data), hdr: "hlog.h"})
+            env["__ops__"] = {"call:" + HL + "get_hlog_fields": lambda *a_: list(tbl),
+                              "call:" + HEXDUMP: lambda d_, *r_: ["<hex dump of %s>" % bytes(d_).hex()]}
+            try:
+                got = evaluate(r, env)
+            except CannotEval as e:
+                rep.count("summary not runnable on samples (%s): decided from its shape" % str(e)[:60], 1)
+                return check_parse_structural(rep, I, items, reps, hdr, cz)
+            except Exception as e:
+                got = "<raises %s: %s>" % (type(e).__name__, e)
+            n += 1
+            want = ["Hex Dump", "--------", "<hex dump of %s>" % data.hex(), "", "Non-Zero Field Values", "---------------------"]
+            pos = 0
+            for f in tbl:
+                if pos + f.size > len(data):
+                    break
+                v = int.from_bytes(data[pos:pos + f.size], "big")
+                pos += f.size
+                if v != 0:
+                    want.append("%s: 0x%0*X" % (f.name, f.size * 2, v))
+            if got != want and bad is None:
+                k = next((i for i in range(max(len(got), len(want))) if i >= len(got) or i >= len(want) or got[i] != want[i]), 0) \
+                    if isinstance(got, list) else 0
+                bad = "fields %s on log bytes %s: line %d is %r, documented %r" % (
+                    [(f.name, f.size) for f in tbl][:6], data.hex(), k, got[k] if isinstance(got, list) and k < len(got) else got,
+                    want[k] if k < len(want) else None)
+    rep.count("field table x log samples evaluated", n)
+    rep.check(bad is None, rule, "fields are consumed contiguously from offset 0 in table order, each by its declared width; the listing stops at the "
+              "first field that does not fit; a line '<name>: 0x<big-endian unsigned value, upper hex, 2*width digits>' iff the value is non-zero",
+              where, "for field in fields", "the field listing does not show exactly the non-zero fields with their own bytes: %s" % bad)
+
+
+def check_parse_structural(rep, I, items, reps, hdr, cz):
+    """the same obligations read off the shape of the summary (used when the summary cannot be run on samples)"""
+    rule = "C16.R1.fields"
+    where = "parse_hlog_data"
     if len(reps) != 1:
         rep.fail(rule, where, "for field in fields", "field values are not produced by exactly one pass over the field table "
                  "(%d line sources): a field value must come from this pass' own read" % len(reps))
